@@ -58,7 +58,7 @@ def classify(exc):
     return "error:" + type(exc).__name__
 
 
-def step(kind, contents, n, op, target, body, cond, *, world=None, hist=0, fault_at=None):
+def step(kind, contents, n, op, target, body, cond, *, world=None, hist=0, fault_at=None, chunked=False):
     """Returns a dict of facts, or None when the symbolic pre-state is not a valid (reachable) state.
 
     hist: what earlier history left in the repository (git never forgets an object):
@@ -94,7 +94,9 @@ def step(kind, contents, n, op, target, body, cond, *, world=None, hist=0, fault
     w.fault_at = fault_at
     try:
         if op == 0:
-            ret = store.import_one(name, None, [body], message="m", replace_etag=etag)
+            # (chunked: the body arrives as several chunks, as the File API allows - `content` is an iterable of bytes)
+            chunks = [body[:1], body[1:]] if chunked and len(body) > 1 else [body]
+            ret = store.import_one(name, None, chunks, message="m", replace_etag=etag)
             outcome = "ok"
         elif op == 1:
             store.delete_one(name, message="m", etag=etag)
